@@ -56,13 +56,14 @@ def _add(store, stix_data, allow_custom=True, version=None):
         # multiple versions.  Otherwise, map directly to the object.  All
         # versioned objects should have a "modified" property.
         if "modified" in stix_obj:
-            if stix_obj["id"] in store._data:
-                obj_family = store._data[stix_obj["id"]]
-            else:
+            obj_family = store._data.get(stix_obj["id"])
+            if obj_family is None:
                 obj_family = _ObjectFamily()
-                store._data[stix_obj["id"]] = obj_family
 
+            # (a family is registered once the object is in it: an object which
+            # cannot be added must not leave an empty family behind)
             obj_family.add(stix_obj)
+            store._data[stix_obj["id"]] = obj_family
 
         else:
             store._data[stix_obj["id"]] = stix_obj
@@ -80,12 +81,15 @@ class _ObjectFamily(object):
         self.latest_version = None
 
     def add(self, obj):
-        self.all_versions[obj["modified"]] = obj
-        if (
+        # (decided first: a "modified" value which cannot be interpreted must
+        # not leave a half-added version behind)
+        is_latest = (
             self.latest_version is None or
             timestamp_sort_key(obj["modified"]) >
             timestamp_sort_key(self.latest_version["modified"])
-        ):
+        )
+        self.all_versions[obj["modified"]] = obj
+        if is_latest:
             self.latest_version = obj
 
     def __str__(self):
